@@ -196,3 +196,15 @@ ENUM_GROUPS = {
             dict(name='canary_must_fail', props=[], canary=True, text='must fail', bound=''),
         ]),
 }
+
+
+# group `cls` (whole class files): definition lives next to its harness
+def _load_cls():
+    import importlib.util, os
+    spec = importlib.util.spec_from_file_location('verif_cls_group', os.path.join(os.path.dirname(os.path.abspath(__file__)), 'enum', 'cls_group.py'))
+    m = importlib.util.module_from_spec(spec)
+    spec.loader.exec_module(m)
+    return m.GROUP
+
+
+ENUM_GROUPS['cls'] = _load_cls()
